@@ -85,6 +85,8 @@ def trusted_scan(text):
     for mm in re.finditer(r'#\s*\[\s*verifier::external_trait_specification\s*\]', m):
         e = rs.stmt_end(m, mm.end(), len(m))
         tb.append('external_trait_specification: ' + ' '.join(text[mm.end():e].split())[:300])
+    for mm in re.finditer(r'\bglobal\s+size_of\b[^;]*;', m):
+        tb.append('target assumption: ' + ' '.join(text[mm.start():mm.end()].split()))
     for mm in re.finditer(r'\bmacro_rules!\s*(\w+)', m):
         tb.append('template macro shim: ' + mm.group(1))
     for mm in re.finditer(r'#\s*\[\s*verifier::external_type_specification\s*\]', m):
@@ -172,7 +174,7 @@ def primary(d, fname=None):
 
 
 def run_verus(path, extra=(), timeout=900):
-    cmd = ['verus', path, '--output-json', '--time', '--error-format=json', '--multiple-errors', '5'] + list(extra)
+    cmd = ['verus', path, '--output-json', '--time', '--error-format=json', '--multiple-errors', '25'] + list(extra)
     rc, out, err, wall = sh(cmd, timeout=timeout, cwd=os.path.dirname(path))
     js = None
     try:
